@@ -16,6 +16,8 @@ pub mod api;
 pub mod xbuild;
 pub mod indcheck;
 pub mod mrefs;
+#[cfg(feature = "xcheck")]
+pub mod srx;
 
 pub struct ReplayReq {
 	pub system: String,
@@ -30,6 +32,8 @@ pub struct H {
 	pub run: Run,
 	replay: Option<ReplayReq>,
 	replay_result: Option<Result<Option<Failure>, String>>,
+	/// stateright cross-checks done in this run (feature `xcheck`, env VERIF_XCHECK)
+	pub xchecks: Vec<serde_json::Value>,
 }
 
 pub enum Mode {
@@ -62,6 +66,7 @@ impl H {
 				run: Run::new(property, &tier),
 				replay: None,
 				replay_result: None,
+				xchecks: vec![],
 			},
 			Mode::Replay(p, tier) => {
 				let t = std::fs::read_to_string(&p).unwrap_or_else(|e| {
@@ -82,6 +87,7 @@ impl H {
 						sig: v["failure"]["sig"].as_str().unwrap_or("").to_string(),
 					}),
 					replay_result: None,
+					xchecks: vec![],
 				}
 			}
 		}
@@ -108,6 +114,17 @@ impl H {
 			return None;
 		}
 		let rep = self.run.explore(sys, lim, dfs);
+		#[cfg(feature = "xcheck")]
+		if std::env::var("VERIF_XCHECK").is_ok() && lim.max_depth == u32::MAX && lim.max_dev == u32::MAX && rep.cap_hit.is_none() && rep.states <= 600_000 {
+			let t0 = std::time::Instant::now();
+			let x = srx::explore_with_stateright(sys);
+			let verdict = if x.keyless { "skipped: system has states without a canonical key" } else if x.unique_states == rep.states { "equal" } else { "DIFFERENT" };
+			eprintln!("  stateright cross-check {:<40} own engine {} states, stateright {} unique states ({} transitions, {:.1}s): {verdict}", rep.system, rep.states, x.unique_states, x.transitions, t0.elapsed().as_secs_f64());
+			self.xchecks.push(serde_json::json!({"system": rep.system, "own_states": rep.states, "own_transitions": rep.transitions, "stateright_unique_states": x.unique_states, "stateright_transitions": x.transitions, "verdict": verdict}));
+			if !x.keyless && x.unique_states != rep.states {
+				self.run.machinery_error(format!("stateright cross-check: {} has {} states in the own engine but {} in stateright", rep.system, rep.states, x.unique_states));
+			}
+		}
 		if std::env::var("VERIF_VERBOSE").is_ok() {
 			eprintln!("  {:<50} {:>10} states {:>10} trans {:>6} vio {:>7.2}s {}", rep.system, rep.states, rep.transitions, rep.violations_total, rep.wall_s, rep.cap_hit.clone().unwrap_or_default());
 		}
@@ -149,7 +166,12 @@ impl H {
 				}
 			}
 		}
-		self.run.finish()
+		let mut me = self;
+		if !me.xchecks.is_empty() {
+			let x = std::mem::take(&mut me.xchecks);
+			me.run.note("stateright_crosscheck", serde_json::json!(x));
+		}
+		me.run.finish()
 	}
 }
 
